@@ -1252,7 +1252,7 @@ func TestVerifGossip(t *testing.T) {
 		t.Fatal(err)
 	}
 	if in.MaxRounds == 0 {
-		in.MaxRounds = 200
+		in.MaxRounds = 100
 	}
 	if in.WaitMS == 0 {
 		in.WaitMS = 30000
